@@ -143,6 +143,15 @@ class SimEvaluator:
                                 hfloat(-1e3, 1e3, self.garbage, "junk", k, row, tag, j), 3
                             )
                             self._fire("garbage_entry")
+        # prescribed objective values (a user function may return anything, e.g. exactly zero)
+        for f in self.faults:
+            if f["kind"] != "set" or (f.get("eval") is not None and f["eval"] != k):
+                continue
+            for row in range(nrows):
+                if f.get("vec") is not None and vec_index is not None and f["vec"] != int(vec_index[row]):
+                    continue
+                obj[row, :] = float(f["value"])
+                self._fire("set_value_row")
         # NaN failures (only on rows of realizations that are actually evaluated)
         for f in self.faults:
             if f["kind"] != "nan":
